@@ -196,6 +196,50 @@ func classifyLoop(p *core.Prog, fn *ssa.Function, h *ssa.BasicBlock, body map[*s
 // separator was found, and then the remainder is strictly shorter than the
 // string that was cut.
 func classifyCut(p *core.Prog, h *ssa.BasicBlock, body map[*ssa.BasicBlock]bool) (string, string) {
+	// the form with the test inside: for { a, rest, found = Cut(rest, sep); ...; if !found { break } }
+	for b := range body {
+		for _, in := range b.Instrs {
+			cut, ok := in.(*ssa.Call)
+			if !ok {
+				continue
+			}
+			if name := p.X(cut).Name; name != "strings.Cut" && name != "bytes.Cut" {
+				continue
+			}
+			sep, ok := cut.Call.Args[1].(*ssa.Const)
+			if !ok || sep.Value == nil || len(sep.Value.ExactString()) <= 2 {
+				continue
+			}
+			rest, ok := cut.Call.Args[0].(*ssa.Phi)
+			if !ok || rest.Block() != h {
+				continue
+			}
+			good := true
+			for i, e := range rest.Edges {
+				pr := h.Preds[i]
+				if !body[pr] {
+					continue
+				}
+				ex, ok := e.(*ssa.Extract)
+				if !ok || ex.Index != 1 || ex.Tuple != ssa.Value(cut) {
+					good = false
+					continue
+				}
+				found := false
+				for _, f := range p.EdgeFacts(pr, h) {
+					if ex2, ok := f.L.Val.(*ssa.Extract); ok && f.Op == "true" && ex2.Index == 2 && ex2.Tuple == ssa.Value(cut) {
+						found = true
+					}
+				}
+				if !found {
+					good = false
+				}
+			}
+			if good {
+				return "shrink", fmt.Sprintf("the loop goes round again only when %s found the separator, and each round cuts the remainder it left: the remainder gets strictly shorter", p.X(cut).Name)
+			}
+		}
+	}
 	iff, ok := h.Instrs[len(h.Instrs)-1].(*ssa.If)
 	if !ok || !body[h.Succs[0]] || body[h.Succs[1]] {
 		return "", ""
